@@ -13,6 +13,8 @@ import ALV.Lemmas.C01Bcast
 import ALV.Lemmas.C01ExcPy
 import ALV.Lemmas.C01Query
 import ALV.Gen.OpTable
+import ALV.Gen.C01Src
+import ALV.Lemmas.C01Src
 import ALV.Common.Audit
 
 namespace ALV.Props.C01
@@ -858,6 +860,91 @@ theorem opget_doc_examples :
     dn (getOpsK genOps [.str n!"+", .str n!"&"] [.func n!"__add__", .str n!"r"]) = some [n!"__pos__", n!"__and__"] ∧
     (getOpsK genOps [.int 2] [.str n!"-", .str n!"+", .str n!"*", .str n!"%", .str n!"r"]).map List.length = some 15 := by
   decide +kernel
+
+/-! ### C01.S — the builder closures, REGENERATED from the source text (translator `harness/props/c01_tr.py`)
+
+`ALV.Gen.C01.binary / rbinary / unary / getattr / call` are values of the program type `Src.Closure`
+(Model/C01Src.lean), written by the translator from the bodies of `StreamMeta.__binary__ / __rbinary__ /
+__unary__` and `Stream.__getattr__ / __call__` on every run.  Their interpretation IS the hand-written model
+function: every theorem above about `evalPy` / `callDunder` is a theorem about what the source says now. -/
+
+/-- the dunder `StreamMeta.__binary__` builds: NotImplemented for ignored classes, `map(f, self, other)` for an
+iterable, `map(lambda a: f(a, other), self)` for a scalar -/
+theorem src_binary_is_model : ALV.Gen.C01.binary.run2 = binaryDunder := by
+  funext f self o; cases o <;> rfl
+
+/-- the dunder `StreamMeta.__rbinary__` builds: the same with the operands in the REFLECTED order -/
+theorem src_rbinary_is_model : ALV.Gen.C01.rbinary.run2 = rbinaryDunder := by
+  funext f self o; cases o <;> rfl
+
+/-- the dunder `StreamMeta.__unary__` builds -/
+theorem src_unary_is_model : ALV.Gen.C01.unary.run1 = unaryDunder := by
+  funext f self; rfl
+
+/-- `Stream.__getattr__` for any name but `__next__`: a MAP OBJECT (flag `false`: an element exception does not
+end the Stream) of `getattr(·, name)` over `self._data` -/
+theorem src_getattr_is_model (label : Name) (self : Iter) :
+    ALV.Gen.C01.getattr.runMeth label self false = .ok (Src.methStream false label self) := rfl
+
+/-- `Stream.__getattr__("__next__")` raises AttributeError ("Streams are iterable, not iterators") -/
+theorem src_getattr_next (label : Name) (self : Iter) :
+    ALV.Gen.C01.getattr.runMeth label self true = .error .attributeError := rfl
+
+/-- `Stream.__call__`: a map object of `·(*args, **kwargs)` over `self._data`, whatever the name -/
+theorem src_call_is_model (label : Name) (self : Iter) (isNext : Bool) :
+    ALV.Gen.C01.call.runMeth label self isNext = .ok (Src.methStream false label self) := rfl
+
+/-- what `evalPy` does with attribute access / call nodes is `methStream` of the evaluated receiver -/
+theorem src_meth_in_eval (tbl : List (Name × Dunder)) (g : Bool) (l : Name) (s : Py) :
+    evalPy tbl (.meth g l s) = (do
+      let vs ← evalPy tbl s
+      let it ← asStream vs
+      pure (Src.methStream g l it)) := Src.evalPy_meth tbl g l s
+
+/-- the method call `getattr(self, dname)(*args)` of the model, with the three builders replaced by the
+regenerated programs, is the model's -/
+theorem src_callDunder_is_model :
+    Src.callDunderSrc ALV.Gen.C01.unary ALV.Gen.C01.binary ALV.Gen.C01.rbinary = callDunder :=
+  Src.callDunderSrc_eq _ _ _ src_unary_is_model src_binary_is_model src_rbinary_is_model
+
+/-- the interpreter tells the programs apart: swapping the operands of the reflected builder's `map` gives
+another function (non-vacuity of `src_rbinary_is_model`) -/
+example : ALV.Gen.C01.binary.run2 n!"__sub__" (.list 0 [.atom 1]) (.iterable false (.list 1 [.atom 2]))
+    ≠ ALV.Gen.C01.rbinary.run2 n!"__sub__" (.list 0 [.atom 1]) (.iterable false (.list 1 [.atom 2])) := by
+  rw [src_binary_is_model, src_rbinary_is_model]
+  simp [binaryDunder, rbinaryDunder]
+
+/-- **`lazy_misc.elementwise`, regenerated**: the decision tree the translator reads from the source
+(decorator default `pos = 0`, `positional`, where `arg` is found, the Iterable / STR_TYPES / SOME_GEN_TYPES / Stream
+tests in their order, the two generator expressions, `Stream(data)`, `type(arg)(data)`, the plain call), interpreted
+over the model's vocabulary, never leaves the model and IS the hand-written `elementwise` — for every call. -/
+theorem src_elementwise_is_model (c : ECall) : ALV.Gen.C01.elementwise.run c = some (elementwise c) := by
+  obtain ⟨f, dname, dpos, args, kwargs, arg⟩ := c
+  have key : ∀ (b1 b2 b3 b4 b5 : Bool), arg.kind.isIterable = b1 → arg.kind.isStr = b2 → arg.kind.isSomeGen = b3 →
+      arg.kind.isStream = b4 → (kwargs.any fun kv => kv.1 == dname) = b5 →
+      ALV.Gen.C01.elementwise.run ⟨f, dname, dpos, args, kwargs, arg⟩ = some (elementwise ⟨f, dname, dpos, args, kwargs, arg⟩) := by
+    intro b1 b2 b3 b4 b5 h1 h2 h3 h4 h5
+    have hd : (dname == []) = true ∨ (dname == []) = false := by cases (dname == []) <;> simp
+    rcases hd with hd | hd <;> cases dpos with
+    | none =>
+      by_cases h : 0 < args.length <;> cases b1 <;> cases b2 <;> cases b3 <;> cases b4 <;> cases b5 <;>
+        simp [Src.EwProg.run, ALV.Gen.C01.elementwise, Src.evalEwTest, elementwise, ECall.isPositional, ECall.pos, ECall.data,
+          ECall.plainCall, Src.evalEwLookup, Src.evalEwTree, Src.evalEwExpr, Src.dataSplice, Src.dataKw, Src.plainAt,
+          hd, h, h1, h2, h3, h4, h5]
+    | some p =>
+      by_cases h : p < args.length <;> cases b1 <;> cases b2 <;> cases b3 <;> cases b4 <;> cases b5 <;>
+        simp [Src.EwProg.run, ALV.Gen.C01.elementwise, Src.evalEwTest, elementwise, ECall.isPositional, ECall.pos, ECall.data,
+          ECall.plainCall, Src.evalEwLookup, Src.evalEwTree, Src.evalEwExpr, Src.dataSplice, Src.dataKw, Src.plainAt,
+          hd, h, h1, h2, h3, h4, h5]
+  exact key _ _ _ _ _ rfl rfl rfl rfl rfl
+
+/-- non-vacuity: a list handed over by keyword, another keyword argument present -/
+example : ALV.Gen.C01.elementwise.run ⟨n!"log", n!"x", some 0, [], [(n!"base", .atom 9), (n!"x", .atom 0)],
+      .sized .list 1 [.atom 1, .atom 2]⟩ =
+    some (.cast .list [.app n!"log" [kwMarker n!"base", .atom 9, kwMarker n!"x", .atom 1],
+                       .app n!"log" [kwMarker n!"base", .atom 9, kwMarker n!"x", .atom 2]] (.mapc true n!"log"
+      [kwMarker n!"base", .atom 9, kwMarker n!"x"] [] (.list 1 []))) := by
+  rw [src_elementwise_is_model]; rfl
 
 end ALV.Props.C01
 
